@@ -35,6 +35,7 @@ Proof.
   - (* VXml *) rewrite xkind_eqb_refl, lZ_eqb_refl, oZ_eqb_refl. reflexivity.
   - (* VStd *) rewrite lZ_eqb_refl, andb_true_r. destruct k; reflexivity.
   - (* VEnum *) rewrite cref_eqb_refl, str_eqb_refl. reflexivity.
+  - (* VFlag *) rewrite cref_eqb_refl, Z.eqb_refl. reflexivity.
 Qed.
 
 Lemma veq_list_refl l : Forall (fun v => veq true v v = true) l -> veq_list true l l = true.
